@@ -71,5 +71,6 @@ V_Items(L, v)  == v.items = [i \in DOMAIN L |-> <<L[i].s, L[i].a>>]
 V_Index(L, v)  == Len(L) > 0 => v.index = L[1].a
 V_Data(L, v)   == Len(L) > 0 => v.data = [i \in DOMAIN L |-> L[i].a]
 V_ByInt(L, v)  == \A q \in Range(v.byint)  : q.a = LET p == PyPos(Len(L), q.i) IN IF p = 0 THEN 0 ELSE L[p].a
-V_ByName(L, v) == \A q \in Range(v.byname) : q.a = LET p == FirstS(L, q.k) IN IF p = 0 THEN 0 ELSE L[p].a
+V_ByName(L, v) == \A q \in Range(v.byname) : LET p == FirstS(L, q.k)  x == IF p = 0 THEN 0 ELSE L[p].a
+                                               IN q.a = x /\ q.gc = x          \* las[k] and las.get_curve(k)
 =============================================================================
